@@ -190,8 +190,21 @@ func shapeStep(r *ev.Run, w *proxyrig.MyWorld, c *proxyrig.MyClient, st proxyrig
 		return false
 	}
 	// COM_STMT_CLOSE has no reply: wait (bounded) until the database has seen as many messages as the client sent
-	for i := 0; i < 400 && w.Store.LogLen()-logStart < len(cSent); i++ {
+	for i := 0; i < 2000 && w.Store.LogLen()-logStart < len(cSent); i++ {
 		time.Sleep(5 * time.Millisecond)
+	}
+	if n := w.Store.LogLen() - logStart; n < len(cSent) {
+		onlyClose := true
+		for _, f := range cSent[n:] {
+			if len(f.Payload) == 0 || f.Payload[0] != fakemysql.ComStmtClose {
+				onlyClose = false
+			}
+		}
+		if onlyClose {
+			// a command without reply is still in flight after the bounded wait: not evidence of anything
+			r.Inconclusive("mysql shape: COM_STMT_CLOSE still in flight after the bounded wait")
+			return false
+		}
 	}
 	dbGot := w.Store.Log()[logStart:]
 	dbSent := w.Store.SentLog()[sentStart:]
